@@ -14,3 +14,6 @@ OBLIGATIONS = [K.WIG_SUMMARY, K.BED_SUMMARY, K.SWEEPS, K.MERGE, K.TOTAL_ITEMS, K
     [o for o in K.WRITER_LAYOUT if o.id in ("C09-L1", "C09-L1b", "C09-L1c")] + [K.WIG_GUARDS, K.BED_GUARDS]
 OBLIGATIONS = OBLIGATIONS + [K.EVERY_VALUE]
 OBLIGATIONS = OBLIGATIONS + [K.INFO_TOOLS]
+OBLIGATIONS = OBLIGATIONS + [K.ZOOMCOUNT_SIBS]
+OBLIGATIONS = OBLIGATIONS + [K.PROCESSOR_ARGS]
+OBLIGATIONS = OBLIGATIONS + [K.PROCESS_DATA]
